@@ -1,4 +1,4 @@
-CONSTANTS MaxCalls = 4  MaxCont = 2  MaxTrail = 1  WithGenErr = TRUE  DoneInit = "count"  HoldItems = FALSE
+CONSTANTS MaxCalls = 3  MaxCont = 2  MaxTrail = 1  WithGenErr = TRUE  DoneInit = "count"  HoldItems = FALSE
 SPECIFICATION HSpec
 INVARIANT Export
 CHECK_DEADLOCK FALSE
